@@ -137,6 +137,7 @@ const (
 	ErrMsgStatementReplaceValueNotSpecified    = "replace value for %s is not specified"
 	ErrMsgSelectIntoQueryFieldLengthNotMatch   = "select into query should return exactly %s"
 	ErrMsgSelectIntoQueryTooManyRecords        = "select into query returns too many records, should return only one record"
+	ErrMsgOperationInProgress                  = "statement cannot be executed while a statement that updates tables is being executed"
 	ErrMsgIntegerDevidedByZero                 = "integer divided by zero"
 )
 
@@ -1577,6 +1578,16 @@ func NewSelectIntoQueryTooManyRecordsError(query parser.SelectQuery) error {
 
 	return &SelectIntoQueryTooManyRecordsError{
 		NewBaseError(selectClause, ErrMsgSelectIntoQueryTooManyRecords, ReturnCodeApplicationError, ErrorSelectIntoQueryTooManyRecords),
+	}
+}
+
+type OperationInProgressError struct {
+	*BaseError
+}
+
+func NewOperationInProgressError(expr parser.Expression) error {
+	return &OperationInProgressError{
+		NewBaseError(expr, ErrMsgOperationInProgress, ReturnCodeApplicationError, ErrorOperationInProgress),
 	}
 }
 
